@@ -170,7 +170,7 @@ def run_property(a, seed, run_contracts):
             encoder.append(dict(m, contract=n))
         for f in numr.get('failures', []):
             numeric_fail.append(dict(f, contract=n))
-        if numr.get('accepted', 1) == 0 and not ct.opts.get('no_numeric'):
+        if numr.get('accepted', 1) == 0 and not ct.opts.get('no_numeric') and ct.opts.get('numeric_share') is not False:
             undecided.append('%s: precondition never satisfied by any concrete sample (vacuity guard)' % n)
 
     # ---------------- verdict -------------------------------------------------------------
